@@ -200,6 +200,23 @@ func (c Cfg) Build() goldmark.Markdown {
 
 type rendererOption interface{}
 
+// Before a runner starts, instances of other configurations - every parser, renderer and
+// extension option switched on, and a few single ones - convert a document that uses every
+// construct.  Configuration is per instance: nothing these instances do may show in the
+// instances the runner builds afterwards.  (C06 compares with fresh child processes instead.)
+func otherConfigurationsFirst() {
+	sink := []byte("# H {#hid .c data-n=1}\n\nt {lang=en}\n===\n\n> q *e* **s** `c` [l](/u \"t\") ![i](/s) <http://a.b> <b>r</b> &amp; \\* ~~d~~ www.x.y a@b.c\n\n- [ ] t\n- [x] u\n\n1. o\n\n|a|b|\n|:-|-:|\n|c|d|\n\n```go {.f}\nx\n```\n\n    ind\n\n***\n\nf[^1] g[^2]\n\n[^1]: n\n[^2]: m\n\nterm\n: def\n\n\"q\" -- ... 'r'\n\n漢字\n漢字 x\\ y\n\n[r]: /ref 'T'\n\n[r] [R][]\n")
+	for _, cf := range []Cfg{
+		{Ext: "all", AutoID: true, Attr: true, Unsafe: true, XHTML: true, HardWraps: true, Opts: true, FnPrefix: "w-", TableAlign: 1},
+		{Ext: "core", Attr: true}, {Ext: "core", AutoID: true}, {Ext: "cjkcss3", XHTML: true}, {Ext: "cjkesc", HardWraps: true}, {Ext: "typo", Opts: true},
+		{Ext: "gfm", TableAlign: 3, Unsafe: true}, {Ext: "footnote", FnPrefix: "v-", FnPrefixFunc: true}, {Ext: "deflist", Attr: true, AutoID: true},
+	} {
+		md := cf.Build()
+		convertSafe(md, sink)
+		convertSafe(md, sink)
+	}
+}
+
 var allExts = []string{"core", "gfm", "deflist", "footnote", "typo", "cjk", "cjkcss3", "cjkesc", "all"}
 
 // the full lattice of C01: 9 x 4 x 8 = 288
@@ -490,6 +507,22 @@ func docStreams(c *Ctx, o docOpts, f func(stream string, doc []byte)) {
 	// per-line state
 	if o.random > 0 {
 		longDocs(c.Quick(), func(a, b []byte) { f("long-documents", append(append([]byte{}, a...), b...)) })
+	}
+	// an opener of every kind repeated around 32 and 64 times (limits on nesting depth), followed
+	// by a short soup of delimiters, links and closers
+	if o.random > 0 {
+		soup := []string{"_a ", "[b](/u) ", "*c ", "**d** ", "]", "](/v)", "![i](/s) ", "`x` ", "[r] ", "__e", "~~f~~ ", "<g>", ")", "* ", "\n"}
+		for _, op := range []string{"[", "![", "*", "_", "`", "<", "(", "[a](", "> ", "- ", "**", "[^"} {
+			for _, n := range []int{31, 32, 33, 34, 63, 64, 65} {
+				for k := 0; k < 6; k++ {
+					d := strings.Repeat(op, n)
+					for t := 2 + c.R.Intn(7); t > 0; t-- {
+						d += c.R.PickS(soup)
+					}
+					f("deep-openers", []byte(d))
+				}
+			}
+		}
 	}
 	// quotes, dashes, dots and other typographic triggers in every neighbourhood: before and after
 	// a letter, ASCII and multi-byte punctuation, a blank, a multi-byte letter, nothing; in the
